@@ -1,9 +1,11 @@
 package main
 
 import (
+	"encoding/hex"
 	"encoding/json"
 	"fmt"
 	"math/rand"
+	"strings"
 )
 
 func u64(v uint64) *uint64   { return &v }
@@ -15,7 +17,7 @@ func str(v string) *string   { return &v }
 
 type Param struct {
 	K string `json:"k"` // absent | bad | num
-	V int64  `json:"v"` // start/end: seconds (sent as V*1e9 ns); step: milliseconds (sent as decimal seconds); limit: the integer
+	V int64  `json:"v"` // start/end/time: seconds (sent as V*1e9 ns); step: milliseconds (sent as decimal seconds); limit: the integer
 }
 
 type MRow struct {
@@ -26,20 +28,21 @@ type MRow struct {
 }
 
 type ModelCase struct {
-	Ep        string `json:"ep"`    // loki_range | loki_instant
-	Shape     string `json:"shape"` // log | log_json | rate | agg_json | parse_error
-	DurS      int64  `json:"dur_s"` // range of the LogQL range vector in seconds (matrix shapes)
-	HasQuery  bool   `json:"has_query"`
-	Start     Param  `json:"start"`
-	End       Param  `json:"end"`
-	Step      Param  `json:"step"`
-	Limit     Param  `json:"limit"`
-	Rows      []MRow `json:"rows"`
-	FailAfter int    `json:"fail_after"`
-	QueryErr  bool   `json:"query_err"`
+	Ep        string   `json:"ep"`    // loki_range | loki_instant | tempo_trace
+	Shape     string   `json:"shape"` // log | log_json | rate | agg_json | parse_error
+	DurS      int64    `json:"dur_s"` // range of the LogQL range vector in seconds (matrix shapes)
+	HasQuery  bool     `json:"has_query"`
+	Start     Param    `json:"start"`
+	End       Param    `json:"end"`
+	Step      Param    `json:"step"`
+	Limit     Param    `json:"limit"`
+	Rows      []MRow   `json:"rows"`
+	FailAfter int      `json:"fail_after"`
+	QueryErr  bool     `json:"query_err"`
+	Spans     []string `json:"spans,omitempty"` // tempo_trace: ok | decode_err | panic | unknown
 }
 
-var badNums = []string{"abc", "1x", "--1", "1e", "0x", "1_0"}
+var badNums = []string{"abc", "1x", "--1", "1e", "0x", "1..0"}
 
 func (p Param) timeText(r *rand.Rand) (string, bool) {
 	switch p.K {
@@ -92,14 +95,14 @@ func (p Param) intText(r *rand.Rand) (string, bool) {
 
 func num(v int64) Param { return Param{K: "num", V: v} }
 
-const baseSec = int64(1700000000)
+const baseSec = int64(1700000040) // a multiple of 3600? no: of 60 (and of 5): buckets of the generated ranges align with it or not on purpose
 
 var queries = map[string][]string{
 	"log":         {`{a="b"}`, `{a="b", c=~"d.*"}`, `{a="b"} |= "x"`, `{a="b"} | json x="y"`},
-	"log_json":    {`{a="b"} | json`, `{a="b"} | logfmt`, `{a="b"} | json | x="1"`},
+	"log_json":    {`{a="b"} | json`, `{a="b"} | logfmt`},
 	"rate":        {`rate({a="b"}[%s])`, `count_over_time({a="b"}[%s])`, `sum by (a) (rate({a="b"}[%s]))`, `bytes_rate({a="b"} |= "x" [%s])`},
-	"agg_json":    {`sum by (x) (count_over_time({a="b"} | json [%s]))`, `count_over_time({a="b"} | json [%s])`, `rate({a="b"} | json [%s])`},
-	"parse_error": {`{a="b"`, `rate({a="b"})`, `{`, `sum(`, `{a="b"} | json |`, "\x00\xff"},
+	"agg_json":    {`count_over_time({a="b"} | json [%s])`, `rate({a="b"} | json [%s])`, `bytes_over_time({a="b"} | json [%s])`},
+	"parse_error": {`{a="b"`, `rate({a="b"})`, `{`, `sum(`, `{a="b"} | json |`, "\x00\xff", `rate({a="b"}[0s])`, `quantile_over_time(0.5, {a="b"} | json | unwrap x [1m])`},
 }
 
 func durText(s int64) string {
@@ -187,8 +190,7 @@ func truncS(t, d int64) int64 {
 // rows of the main statement: a faithful database only returns rows inside the window [fromS,toS) of the statement
 func genRows(r *rand.Rand, mc *ModelCase, fromS, toS int64) {
 	mc.FailAfter = -1
-	switch r.Intn(12) {
-	case 1:
+	if r.Intn(12) == 1 {
 		mc.QueryErr = true
 	}
 	if toS <= fromS {
@@ -210,10 +212,11 @@ func genRows(r *rand.Rand, mc *ModelCase, fromS, toS int64) {
 	nfp := 1 + r.Intn(3)
 	span := toS - fromS
 	perFp := n/nfp + 1
+	zeroFirst := r.Intn(20) == 0
 	for i := 0; i < n; i++ {
 		fp := uint64(1 + i/perFp)
-		if r.Intn(40) == 0 {
-			fp = 0
+		if zeroFirst && fp == 1 {
+			fp = 0 // a series whose fingerprint is 0, first in the result set
 		}
 		// ascending inside a stream; whole seconds plus a few ns
 		off := (span * int64(i%perFp)) / int64(perFp)
@@ -234,7 +237,20 @@ func genRows(r *rand.Rand, mc *ModelCase, fromS, toS int64) {
 	}
 }
 
+// number of float64 the matrix post-processors allocate per series: outside (4e6, 1e9) the outcome is not a matter of
+// how much memory the machine has (the worker runs under an address-space limit of a few GiB)
+func grayZone(x float64) bool { return x > 4e5 && x < 2e9 }
+
 func lokiCase(r *rand.Rand, id int) *Case {
+	for {
+		c := lokiCase1(r, id)
+		if c != nil {
+			return c
+		}
+	}
+}
+
+func lokiCase1(r *rand.Rand, id int) *Case {
 	mc := &ModelCase{Ep: "loki_range", HasQuery: true}
 	shapes := []string{"log", "log", "log_json", "log_json", "rate", "rate", "rate", "agg_json", "agg_json", "parse_error"}
 	mc.Shape = shapes[r.Intn(len(shapes))]
@@ -252,6 +268,13 @@ func lokiCase(r *rand.Rand, id int) *Case {
 	mc.Start, mc.End = pickRange(r)
 	mc.Step = pickStep(r)
 	mc.Limit = pickLimit(r)
+	if mc.Ep == "loki_instant" {
+		// the instant endpoint takes `time` (integer ns; 0 or absent = now): modelled through End, kept explicit and positive
+		if mc.End.K != "bad" && (mc.End.K == "absent" || mc.End.V <= 0) {
+			mc.End = num(baseSec)
+		}
+		mc.Start = Param{K: "absent"}
+	}
 	fromS, toS := baseSec, baseSec+300
 	if mc.Start.K == "num" {
 		fromS = mc.Start.V
@@ -262,8 +285,22 @@ func lokiCase(r *rand.Rand, id int) *Case {
 	if mc.Ep == "loki_instant" {
 		fromS = toS - 300
 	}
-	if mc.Shape == "rate" || mc.Shape == "agg_json" {
-		fromS, toS = truncS(fromS, mc.DurS), truncS(toS, mc.DurS)+mc.DurS
+	matrix := mc.Shape == "rate" || mc.Shape == "agg_json"
+	if matrix {
+		stepMs := int64(1000)
+		if mc.Step.K == "num" {
+			stepMs = mc.Step.V
+		}
+		if stepMs > 0 && toS >= fromS {
+			if grayZone(float64(toS-fromS)*1000/float64(stepMs) + 1) {
+				return nil
+			}
+		}
+		aFrom, aTo := truncS(fromS, mc.DurS), truncS(toS, mc.DurS)+mc.DurS
+		if mc.Shape == "agg_json" && grayZone(float64(aTo-aFrom)/float64(mc.DurS)*2) {
+			return nil
+		}
+		fromS, toS = aFrom, aTo
 	}
 	genRows(r, mc, fromS, toS)
 	c := &Case{ID: id, Class: mc.Ep + "/" + mc.Shape, Method: "GET"}
@@ -286,13 +323,6 @@ func lokiCase(r *rand.Rand, id int) *Case {
 		s, ok = mc.End.timeText(r)
 		add("end", s, ok)
 	} else {
-		// the instant endpoint takes `time` (integer ns; 0 or absent = now): modelled through End
-		if mc.End.K == "num" && mc.End.V <= 0 {
-			mc.End = num(baseSec)
-		}
-		if mc.End.K == "absent" {
-			mc.End = num(baseSec)
-		}
 		s, ok := mc.End.timeText(r)
 		add("time", s, ok)
 	}
@@ -300,19 +330,16 @@ func lokiCase(r *rand.Rand, id int) *Case {
 	add("step", s, ok)
 	s, ok = mc.Limit.intText(r)
 	add("limit", s, ok)
-	matrix := mc.Shape == "rate"
 	rs := ResultSet{Match: "", Cols: 4, FailAfter: mc.FailAfter, QueryErr: mc.QueryErr}
 	for _, row := range mc.Rows {
 		lbl := map[string]string{"a": "b", "fp": fmt.Sprint(row.Fp)}
 		cells := []Cell{{U: u64(row.Fp)}, {M: lbl}}
-		if matrix {
+		if mc.Shape == "rate" {
 			cells = append(cells, Cell{F: f64(float64(row.Val))})
+		} else if row.Kind == "nojson" {
+			cells = append(cells, Cell{S: str("plain text line")})
 		} else {
-			if row.Kind == "nojson" {
-				cells = append(cells, Cell{S: str("plain text line")})
-			} else {
-				cells = append(cells, Cell{S: str(fmt.Sprintf(`{"x":"%d","msg":"m%d"}`, row.Val, row.Ts%97))})
-			}
+			cells = append(cells, Cell{S: str(fmt.Sprintf(`{"x":"%d","msg":"m%d"}`, row.Val, row.Ts%97))})
 		}
 		cells = append(cells, Cell{I: i64(row.Ts)})
 		if row.Kind == "bad" {
@@ -326,13 +353,410 @@ func lokiCase(r *rand.Rand, id int) *Case {
 	return c
 }
 
+// ---------------------------------------------------------------- Tempo: GET /api/traces/{id}
+
+const zipOK = `{"id":"1","traceId":"2","name":"n","kind":"CLIENT","localEndpoint":{"serviceName":"s"},"tags":{"k":"v"}}`
+
+func tempoCase(r *rand.Rand, id int) *Case {
+	mc := &ModelCase{Ep: "tempo_trace"}
+	n := r.Intn(8)
+	tid, sid := "0123456789abcdef", "01234567"
+	rs := ResultSet{Match: "", Cols: 7, FailAfter: -1}
+	for i := 0; i < n; i++ {
+		t, s, pt, payload := tid, sid, int64(1), zipOK
+		kind := "ok"
+		switch r.Intn(12) {
+		case 0:
+			kind, payload = "decode_err", "{"
+		case 1:
+			kind, pt, payload = "panic", 2, "" // parseOTLP: payload[0]
+		case 2:
+			kind, t = "panic", "0123" // traceId[:16]
+		case 3:
+			kind, s = "panic", "01" // id[:8]
+		case 4:
+			kind, pt = "unknown", int64(3+r.Intn(5))
+		case 5:
+			kind, pt, payload = "decode_err", 2, "{garbage"
+		case 6:
+			kind, pt, payload = "decode_err", 2, "\x01\x02garbage"
+		}
+		mc.Spans = append(mc.Spans, kind)
+		rs.Rows = append(rs.Rows, []Cell{{S: str(t)}, {S: str(s)}, {S: str("")}, {I: i64(baseSec * 1000000000)}, {I: i64(1000)}, {I: i64(pt)}, {S: str(payload)}})
+	}
+	c := &Case{ID: id, Class: "tempo_trace", Method: "GET", Path: []string{"/api/traces/", "/tempo/api/traces/"}[r.Intn(2)] + "0123456789abcdef0123456789abcdef"}
+	if r.Intn(3) == 0 {
+		c.Accept = "application/protobuf"
+	}
+	c.Script = []ResultSet{rs}
+	b, _ := json.Marshal(mc)
+	c.Model = b
+	return c
+}
+
+// ---------------------------------------------------------------- test-only stream: every other read endpoint, mutated and random query bytes
+
+var validQueries = []string{
+	`{a="b"}`, `{a="b"} |= "x" != "y"`, `{a=~"b.*", c!="d"} | json | line_format "{{.x}}"`, `rate({a="b"}[1m])`,
+	`sum by (a) (count_over_time({a="b"} | logfmt [5m]))`, `avg_over_time({a="b"} | json | unwrap x [1m]) by (a)`,
+	`topk(3, rate({a="b"}[1m]))`, `{a="b"} | json | label_format z="{{.x}}" | drop a`, `absent_over_time({a="b"}[1m])`,
+	`max by (x) (max_over_time({a="b"} | json | unwrap x [1m])) > 1`, `{a="b"} | regexp "(?P<x>\\d+)"`,
+	`up`, `rate(http_requests_total{job="a"}[5m])`, `sum by (job) (up) / 2`, `histogram_quantile(0.9, rate(x_bucket[1m]))`,
+	`{.service.name="a"}`, `{.http.status>=200 && name="x"} | count() > 1`, `{duration>1s} || {name=~"a.*"}`,
+	`process_cpu:cpu:nanoseconds:cpu:nanoseconds{service_name="a"}`,
+}
+
+var insBytes = []byte("{}[]()|=~!\"\\ ,.0a\x00\xff")
+
+func mutate(r *rand.Rand, s string) string {
+	b := []byte(s)
+	for k := 1 + r.Intn(3); k > 0; k-- {
+		switch r.Intn(5) {
+		case 0:
+			if len(b) > 0 {
+				i := r.Intn(len(b))
+				b = append(b[:i], b[i+1:]...)
+			}
+		case 1:
+			i := r.Intn(len(b) + 1)
+			b = append(b[:i], append([]byte{insBytes[r.Intn(len(insBytes))]}, b[i:]...)...)
+		case 2:
+			if len(b) > 0 {
+				b[r.Intn(len(b))] ^= byte(1 << uint(r.Intn(8)))
+			}
+		case 3:
+			if len(b) > 1 {
+				i := r.Intn(len(b) - 1)
+				b = b[:i+1]
+			}
+		case 4:
+			i := r.Intn(len(b) + 1)
+			j := r.Intn(len(b) + 1)
+			if i > j {
+				i, j = j, i
+			}
+			b = append(b[:j:j], append(append([]byte{}, b[i:j]...), b[j:]...)...)
+		}
+	}
+	return string(b)
+}
+
+func randBytes(r *rand.Rand) string {
+	b := make([]byte, r.Intn(40))
+	for i := range b {
+		b[i] = byte(r.Intn(256))
+	}
+	return string(b)
+}
+
+func randCell(r *rand.Rand) Cell {
+	switch r.Intn(9) {
+	case 0:
+		return Cell{U: u64(uint64(r.Intn(5)))}
+	case 1:
+		return Cell{I: i64(baseSec*1000000000 + int64(r.Intn(300))*1000000000)}
+	case 2:
+		return Cell{F: f64(float64(r.Intn(7)) - 2)}
+	case 3:
+		return Cell{S: str([]string{"", "x", `{"a":"b"}`, "[1,2]", "0123456789abcdef", "a=b c=d"}[r.Intn(6)])}
+	case 4:
+		return Cell{M: map[string]string{"a": "b", "__name__": "up"}}
+	case 5:
+		return Cell{AS: []string{"a", "b"}[:r.Intn(3)]}
+	case 6:
+		return Cell{AI: []int64{1, 2, 3}[:r.Intn(4)]}
+	case 7:
+		return Cell{I: i64(int64(r.Intn(5)) - 1)}
+	}
+	return Cell{}
+}
+
+func randScript(r *rand.Rand) []ResultSet {
+	cols := 1 + r.Intn(9)
+	rs := ResultSet{Match: "", Cols: cols, FailAfter: -1}
+	n := []int{0, 1, 3, 120}[r.Intn(4)]
+	proto := make([]Cell, cols)
+	for j := range proto {
+		proto[j] = randCell(r)
+	}
+	for i := 0; i < n; i++ {
+		row := make([]Cell, cols)
+		for j := range row {
+			if r.Intn(6) == 0 {
+				row[j] = randCell(r)
+			} else {
+				row[j] = proto[j]
+			}
+		}
+		rs.Rows = append(rs.Rows, row)
+	}
+	switch r.Intn(8) {
+	case 0:
+		rs.QueryErr = true
+	case 1:
+		rs.FailAfter = r.Intn(n + 1)
+	}
+	return []ResultSet{rs}
+}
+
+// typed result sets for the endpoints whose scanners we know, so that the happy paths are exercised too
+func typedScript(r *rand.Rand, kind string) []ResultSet {
+	rs := ResultSet{Match: "", FailAfter: -1}
+	n := []int{0, 1, 5, 150}[r.Intn(4)]
+	switch kind {
+	case "strings":
+		rs.Cols = 1
+		for i := 0; i < n; i++ {
+			rs.Rows = append(rs.Rows, []Cell{{S: str(fmt.Sprintf("v%d\"\\", i))}})
+		}
+	case "prom_samples": // fingerprint, value, timestamp_ms (CLokiQuerier.Select) -- and labels for the series statement
+		rs.Cols = 3
+		for i := 0; i < n; i++ {
+			rs.Rows = append(rs.Rows, []Cell{{U: u64(uint64(1 + i/50))}, {F: f64(float64(i % 7))}, {I: i64((baseSec + int64(i%50)*15) * 1000)}})
+		}
+	case "search": // trace_id, root service, root name, start, duration
+		rs.Cols = 5
+		for i := 0; i < n; i++ {
+			rs.Rows = append(rs.Rows, []Cell{{S: str("0123456789abcdef")}, {S: str("svc")}, {S: str("op")}, {I: i64(baseSec * 1000000000)}, {I: i64(12)}})
+		}
+	case "traceql": // trace_id, span_ids[], durations[], timestamps[], start, duration ms, root service, root name
+		rs.Cols = 8
+		for i := 0; i < n; i++ {
+			k := r.Intn(4)
+			ids := make([]string, k)
+			ds := make([]int64, k)
+			ts := make([]int64, k)
+			for j := range ids {
+				ids[j] = fmt.Sprintf("%016x", j)
+				ds[j] = int64(j)
+				ts[j] = int64(j)
+			}
+			if r.Intn(10) == 0 && k > 0 {
+				ts = ts[:k-1] // array columns of unequal length
+			}
+			rs.Rows = append(rs.Rows, []Cell{{S: str(hex.EncodeToString([]byte("0123456789abcdef")))}, {AS: ids}, {AI: ds}, {AI: ts},
+				{I: i64(baseSec * 1000000000)}, {F: f64(1.5)}, {S: str("svc")}, {S: str("op")}})
+		}
+	}
+	switch r.Intn(10) {
+	case 0:
+		rs.QueryErr = true
+	case 1:
+		rs.FailAfter = r.Intn(n + 1)
+	}
+	return []ResultSet{rs}
+}
+
+func pickQuery(r *rand.Rand) (string, string) {
+	switch r.Intn(10) {
+	case 0:
+		return randBytes(r), "random"
+	case 1, 2, 3, 4:
+		return mutate(r, validQueries[r.Intn(len(validQueries))]), "mutated"
+	}
+	return validQueries[r.Intn(len(validQueries))], "valid"
+}
+
+func oddNum(r *rand.Rand, base int64) string {
+	switch r.Intn(12) {
+	case 0:
+		return ""
+	case 1:
+		return "0"
+	case 2:
+		return fmt.Sprint(-base)
+	case 3:
+		return "99999999999999999999"
+	case 4:
+		return "NaN"
+	case 5:
+		return "1e400"
+	case 6:
+		return badNums[r.Intn(len(badNums))]
+	case 7:
+		return "2023-11-14T22:13:20Z"
+	}
+	return fmt.Sprint(base + int64(r.Intn(600)))
+}
+
+func testCase(r *rand.Rand, id int) *Case {
+	c := &Case{ID: id, Method: "GET"}
+	q, qk := pickQuery(r)
+	add := func(k, v string) {
+		if v != "" || r.Intn(4) == 0 {
+			c.Params = append(c.Params, KV{k, v})
+		}
+	}
+	ep := r.Intn(16)
+	switch ep {
+	case 0, 1: // Loki log/matrix queries with arbitrary text; the step stays positive and the range small (modelled stream covers the rest)
+		c.Class = "test/loki_range/" + qk
+		c.Path = "/loki/api/v1/query_range"
+		add("query", q)
+		add("start", fmt.Sprintf("%d000000000", baseSec))
+		add("end", fmt.Sprintf("%d000000000", baseSec+300))
+		add("step", []string{"1", "15", "0.5", "60", "1m", "abc", ""}[r.Intn(7)])
+		add("limit", []string{"", "0", "10", "-1", "x"}[r.Intn(5)])
+		add("direction", []string{"", "forward", "backward", "x"}[r.Intn(4)])
+		c.Script = lokiScript(r)
+	case 2:
+		c.Class = "test/loki_instant/" + qk
+		c.Path = "/loki/api/v1/query"
+		add("query", q)
+		add("time", []string{"", "0", fmt.Sprintf("%d000000000", baseSec), "abc", "-5"}[r.Intn(5)])
+		add("step", []string{"", "1", "15"}[r.Intn(3)])
+		c.Script = lokiScript(r)
+	case 3:
+		c.Class = "test/loki_labels"
+		c.Path = []string{"/loki/api/v1/label", "/loki/api/v1/labels", "/loki/api/v1/label/a/values", "/loki/api/v1/label/%00/values"}[r.Intn(4)]
+		if r.Intn(3) == 0 {
+			c.Method = "POST"
+		}
+		add("start", oddNum(r, baseSec*1000000000))
+		add("end", oddNum(r, (baseSec+300)*1000000000))
+		add("query", q)
+		c.Script = typedScript(r, "strings")
+	case 4:
+		c.Class = "test/series/" + qk
+		c.Path = []string{"/loki/api/v1/series", "/api/v1/series"}[r.Intn(2)]
+		c.Params = append(c.Params, KV{"match[]", q})
+		if r.Intn(3) == 0 {
+			c.Params = append(c.Params, KV{"match[]", validQueries[r.Intn(len(validQueries))]})
+		}
+		add("start", oddNum(r, baseSec))
+		add("end", oddNum(r, baseSec+300))
+		c.Script = typedScript(r, "strings")
+	case 5, 6: // Prometheus range: the controller must answer 400 for a step <= 0
+		c.Path = "/api/v1/query_range"
+		if r.Intn(3) == 0 {
+			c.Method = "POST"
+		}
+		add("query", q)
+		add("start", oddNum(r, baseSec))
+		add("end", oddNum(r, baseSec+300))
+		step := []string{"15", "1", "60", "0", "-5", "0.0", "-0.5s", "1m", "abc", ""}[r.Intn(10)]
+		c.Params = append(c.Params, KV{"step", step})
+		c.Class = "test/prom_range/" + qk
+		c.Script = typedScript(r, "prom_samples")
+	case 7:
+		c.Class = "test/prom_instant/" + qk
+		c.Path = "/api/v1/query"
+		add("query", q)
+		add("time", oddNum(r, baseSec))
+		c.Script = typedScript(r, "prom_samples")
+	case 8:
+		c.Class = "test/prom_labels"
+		c.Path = []string{"/api/v1/labels", "/api/v1/label/job/values", "/api/v1/label/__name__/values", "/api/v1/metadata", "/api/v1/rules", "/api/v1/query_exemplars"}[r.Intn(6)]
+		add("start", oddNum(r, baseSec))
+		add("end", oddNum(r, baseSec+300))
+		c.Params = append(c.Params, KV{"match[]", q})
+		c.Script = typedScript(r, "strings")
+	case 9:
+		c.Class = "test/tempo_tags"
+		c.Path = []string{"/api/search/tags", "/tempo/api/search/tags", "/api/search/tag/a/values", "/api/search/tag/span.a/values",
+			"/api/search/tag/resource.service.name/values", "/api/v2/search/tags", "/api/v2/search/tag/.a/values", "/api/echo"}[r.Intn(8)]
+		add("start", oddNum(r, baseSec))
+		add("end", oddNum(r, baseSec+300))
+		add("limit", []string{"", "0", "-1", "5", "999999", "x"}[r.Intn(6)])
+		add("q", q)
+		c.Script = typedScript(r, "strings")
+	case 10, 11:
+		c.Class = "test/tempo_search/" + qk
+		c.Path = []string{"/api/search", "/tempo/api/search"}[r.Intn(2)]
+		if r.Intn(2) == 0 {
+			add("q", q)
+			c.Script = typedScript(r, "traceql")
+		} else {
+			add("tags", []string{"", "a=b", "a=b c=d", "service.name=x name=y", "=", "a", "\x00"}[r.Intn(7)])
+			c.Script = typedScript(r, "search")
+		}
+		add("start", oddNum(r, baseSec))
+		add("end", oddNum(r, baseSec+300))
+		add("limit", []string{"", "0", "-1", "5", "x"}[r.Intn(5)])
+		add("minDuration", []string{"", "1s", "0", "-1s", "x"}[r.Intn(5)])
+		add("maxDuration", []string{"", "1s", "0", "x"}[r.Intn(4)])
+	case 12:
+		c.Class = "test/tempo_trace_id"
+		c.Path = "/api/traces/" + []string{"0123456789abcdef0123456789abcdef", "0123", "zz", strings.Repeat("a", 64), "%00", "0123456789abcdef0123456789abcde"}[r.Intn(6)]
+		if r.Intn(3) == 0 {
+			c.Path += "/json"
+		}
+		add("start", oddNum(r, baseSec))
+		add("end", oddNum(r, baseSec+300))
+		c.Script = randScript(r)
+	case 13:
+		c.Class = "test/prof"
+		c.Method = "POST"
+		c.Path = []string{"/querier.v1.QuerierService/ProfileTypes", "/querier.v1.QuerierService/LabelNames", "/querier.v1.QuerierService/LabelValues",
+			"/querier.v1.QuerierService/SelectMergeStacktraces", "/querier.v1.QuerierService/SelectSeries", "/querier.v1.QuerierService/SelectMergeProfile",
+			"/querier.v1.QuerierService/Series", "/querier.v1.QuerierService/GetProfileStats", "/settings.v1.SettingsService/Get",
+			"/querier.v1.QuerierService/AnalyzeQuery"}[r.Intn(10)]
+		c.Body = []string{`{}`, `{"start":1700000000000,"end":1700000300000}`, `{"start":"x"}`, ``, `{"profileTypeID":"process_cpu:cpu:nanoseconds:cpu:nanoseconds","labelSelector":"{a=\"b\"}","start":1700000000000,"end":1700000300000,"step":15}`,
+			`{"profileTypeID":"x","labelSelector":"{","start":0,"end":0,"step":0}`, `{"name":"a","matchers":["{a=\"b\"}"],"start":1,"end":2}`, "\x00\x01\x02"}[r.Intn(8)]
+		c.ContentType = []string{"application/json", "application/proto", ""}[r.Intn(3)]
+		c.Script = randScript(r)
+	case 14:
+		c.Class = "test/any_endpoint_random_rows/" + qk
+		c.Path = []string{"/loki/api/v1/query_range", "/loki/api/v1/query", "/api/v1/query_range", "/api/search", "/loki/api/v1/series", "/pyroscope/render-diff", "/api/v1/status/buildinfo"}[r.Intn(7)]
+		add("query", q)
+		add("q", q)
+		add("match[]", q)
+		add("start", fmt.Sprintf("%d000000000", baseSec))
+		add("end", fmt.Sprintf("%d000000000", baseSec+300))
+		add("step", "15")
+		c.Script = randScript(r)
+	default:
+		c.Class = "test/tail_no_upgrade"
+		c.Path = "/loki/api/v1/tail"
+		c.WaitMs = 2500 // the tail goroutine notices the closed watcher at its next one-second tick
+		add("query", q)
+		c.Script = lokiScript(r)
+	}
+	return c
+}
+
+// result sets in the shape of the LogQL scanners, contents unconstrained apart from the time window
+func lokiScript(r *rand.Rand) []ResultSet {
+	rs := ResultSet{Match: "", Cols: 4, FailAfter: -1}
+	n := []int{0, 1, 7, 130, 320}[r.Intn(5)]
+	msgs := []string{`{"x":"1","y":2}`, `x=1 y="2"`, `plain`, ``, `{"x":{"z":[1,2]}}`, `{"x":"9e999"}`, "\xff\xfe", `{"x":null}`}
+	strCol := r.Intn(2) == 0
+	for i := 0; i < n; i++ {
+		var labels map[string]string
+		if r.Intn(12) != 0 {
+			labels = map[string]string{"a": "b", "s": fmt.Sprint(i / 40)}
+		}
+		row := []Cell{{U: u64(uint64(i / 40))}, {M: labels}}
+		if strCol {
+			row = append(row, Cell{S: str(msgs[r.Intn(len(msgs))])})
+		} else {
+			row = append(row, Cell{F: f64(float64(r.Intn(5)))})
+		}
+		row = append(row, Cell{I: i64((baseSec+int64(i%40)*7)*1000000000 + int64(r.Intn(2)))})
+		rs.Rows = append(rs.Rows, row)
+	}
+	switch r.Intn(10) {
+	case 0:
+		rs.QueryErr = true
+	case 1:
+		rs.FailAfter = r.Intn(n + 1)
+	}
+	return []ResultSet{rs}
+}
+
+// generate: n modelled cases (Loki range/instant, Tempo trace) followed by 2.5 n test-only cases
 func generate(seed int64, n int) []*Case {
-	r := hx_rand(seed)
+	r := rand.New(rand.NewSource(seed))
 	var res []*Case
 	for i := 0; i < n; i++ {
-		res = append(res, lokiCase(r, i))
+		if i%8 == 7 {
+			res = append(res, tempoCase(r, i))
+		} else {
+			res = append(res, lokiCase(r, i))
+		}
+	}
+	for i := 0; i < n*5/2; i++ {
+		res = append(res, testCase(r, n+i))
 	}
 	return res
 }
-
-func hx_rand(seed int64) *rand.Rand { return rand.New(rand.NewSource(seed)) }
